@@ -5,8 +5,8 @@
 //! decided with a model cipher of the same shape as CFB8 (key stream byte = f(state), state' = g(state,
 //! ciphertext byte), 16-bit symbolic state): the property "wire = one continuous encryption of the bytes
 //! reported written" does not depend on which block function sits underneath. That the cipher pair created
-//! by `create_ciphers` *is* AES-128-CFB8 with key = IV = secret is decided separately with the real `aes`
-//! and `cfb8` crates for seeded concrete secrets against a reference CFB8 built on the raw AES block function.
+//! by `create_ciphers` *is* 8-bit CFB over aes::Aes128 with key = IV = secret is decided separately on the real
+//! `aes` and `cfb8` crates in engine K (engines/k/src/c05k.rs).
 #![allow(unused, static_mut_refs)]
 use crate::crypto::stream::{create_ciphers, CipherStream};
 use cfb8::cipher::{
@@ -197,71 +197,6 @@ mod proofs {
             i += 1;
         }
         kani::cover!(k == 2, "switch after two plaintext bytes");
-    }
-
-    // ---- the real cfb8 + aes crates, AES *block function* replaced by a cheap model block cipher ----------------
-    // Decides: create_ciphers builds 8-bit-feedback CFB over the aes::Aes128 block cipher keyed with the secret and
-    // with the secret as IV, for every secret and plaintext — against a reference CFB8 written on the raw block
-    // function. Trusted: that aes::Aes128's block function is AES-128 (symbolic AES does not finish under CBMC).
-    use aes::cipher::generic_array::{typenum::{U16, U4}, GenericArray};
-    use aes::cipher::{BlockEncrypt, KeyInit};
-    type Batch = GenericArray<GenericArray<u8, U16>, U4>;
-    pub fn model_key_schedule(key: &[u8; 16]) -> [u64; 88] {
-        let mut k = [0u64; 88];
-        let mut i = 0;
-        while i < 16 { k[i] = key[i] as u64; i += 1; }
-        k
-    }
-    pub fn model_block(rkeys: &[u64; 88], blocks: &Batch) -> Batch {
-        let mut out = blocks.clone();
-        let mut b = 0;
-        while b < 1 { // single-block callers only read block 0 of the batch
-            let mut i = 0;
-            while i < 16 {
-                let x = blocks[b][i];
-                let y = blocks[b][(i + 15) % 16].wrapping_add(rkeys[(i + 3) % 16] as u8).rotate_left(3);
-                let z = blocks[b][(i + 14) % 16].wrapping_mul(5);
-                out[b][i] = x ^ (rkeys[i] as u8) ^ y ^ z;
-                i += 1;
-            }
-            b += 1;
-        }
-        out
-    }
-    fn ref_cfb8_encrypt(secret: &[u8; 16], plain: &[u8; 3]) -> [u8; 3] {
-        let aes = aes::Aes128::new_from_slice(secret).unwrap();
-        let mut reg = *secret; // IV = secret
-        let mut out = [0u8; 3];
-        let mut i = 0;
-        while i < 3 {
-            let mut blk = GenericArray::clone_from_slice(&reg);
-            aes.encrypt_block(&mut blk);
-            let c = plain[i] ^ blk[0];
-            out[i] = c;
-            let mut j = 0; while j < 15 { reg[j] = reg[j + 1]; j += 1; }
-            reg[15] = c;
-            i += 1;
-        }
-        out
-    }
-    #[kani::proof]
-    #[kani::unwind(18)]
-    #[kani::stub(aes::soft::fixslice::aes128_key_schedule, model_key_schedule)]
-    #[kani::stub(aes::soft::fixslice::aes128_encrypt, model_block)]
-    fn cfb8_mode_key_is_iv() {
-        let secret: [u8; 16] = kani::any();
-        let plain: [u8; 3] = kani::any();
-        let (enc, dec) = match create_ciphers(&secret) { Ok(p) => p, Err(e) => { std::mem::forget(e); panic!("16-byte secret accepted") } };
-        let mut cs = CipherStream::new(Wire::new([254; STEPS], [254; STEPS], [0; CAP], 0), Some(enc), Some(dec));
-        match cx_run(|cx| Pin::new(&mut cs).poll_write(cx, &plain)) {
-            Poll::Ready(Ok(n)) => assert!(n == 3),
-            _ => assert!(false),
-        }
-        let expect = ref_cfb8_encrypt(&secret, &plain);
-        let wire = cs.into_inner_for_verif();
-        assert!(wire.n == 3 && wire.acc[0] == expect[0] && wire.acc[1] == expect[1] && wire.acc[2] == expect[2],
-            "wire equals reference 8-bit CFB over the AES-128 block cipher with key = IV = shared secret");
-        std::mem::forget(wire);
     }
 
     /// secrets that are not 16 bytes are refused (no cipher is created)
